@@ -42,7 +42,8 @@ import (
 // answer: fx=<effect>+<effect>..|-  view=<v> hash=<name> sent=<0|1> senders=[..] agg=<sig>
 // effect: propose~[children] | send~<view>~<sig> | qc~<view>~<hash>~<sig>
 // sig:    nil | <len>/[participants in Participants() order]/<1|0|->   (last: verdict of ANOTHER replica's
-//         authority on the signature over the bytes of the block named by the node's blockHash)
+//
+//	authority on the signature over the bytes of the block named by the node's blockHash)
 type kauriFam struct {
 	c      *certFam
 	id     int
@@ -52,6 +53,9 @@ type kauriFam struct {
 	tr     *tree.Tree
 	fx     []string
 	hashes map[hotstuff.Hash]string
+	// whole-tree family (fam_ktree.go): what the node hands to its parent, largest certificate so far
+	onSend func(hotstuff.QuorumSignature)
+	qcMax  int
 }
 
 func init() {
@@ -80,6 +84,9 @@ func (s *kauriRecSender) Sub(ids []hotstuff.ID) (core.Sender, error) {
 }
 func (s *kauriRecSender) SendContributionToParent(view hotstuff.View, qc hotstuff.QuorumSignature) {
 	s.f.fx = append(s.f.fx, fmt.Sprintf("send~%d~%s", view, s.f.kauriSig(qc)))
+	if s.f.onSend != nil {
+		s.f.onSend(qc)
+	}
 }
 
 var _ core.KauriSender = (*kauriRecSender)(nil)
@@ -223,6 +230,9 @@ func (f *kauriFam) node(a []string) string {
 	f.k = comm.NewKauri(logger, f.el, cfg, f.chain, auth, snd)
 	eventloop.Register(f.el, func(m hotstuff.NewViewMsg) {
 		if qc, ok := m.SyncInfo.QC(); ok {
+			if sig := qc.Signature(); !kauriIsNilSig(sig) && sig.Participants().Len() > f.qcMax {
+				f.qcMax = sig.Participants().Len()
+			}
 			f.fx = append(f.fx, fmt.Sprintf("qc~%d~%s~%s", qc.View(), f.kauriHashName(qc.BlockHash()), f.kauriSig(qc.Signature())))
 		} else {
 			f.fx = append(f.fx, "newview-without-qc")
